@@ -775,10 +775,17 @@ def _schedule(repo, col, R="R-C01-schedule"):
         # the kernel that vmap receives, specialised to each solver name (whatever the if/elif/else arrangement is)
         exk = idxm.expander(repo, fi)
         sp_ = next((p_ for p_ in fi.params if "solver" in p_), None)
-        kc_ = next((n for n in ast.walk(fi.node) if isinstance(n, ast.Call) and isinstance(n.func, ast.Call) and
+        kc_ = next((n for n in walk_no_nested(fi.node) if isinstance(n, ast.Call) and isinstance(n.func, ast.Call) and
                     unparse(n.func.func).split(".")[-1] == "vmap" and n.func.args), None)
-        if kc_ is not None and sp_ is not None:
-            kt_ = exk.term(kc_.func.args[0])
+        kt_ = exk.term(kc_.func.args[0]) if kc_ is not None else None
+        if kt_ is None:
+            # the vmapped application sits in a local helper: taken from the (inlined) terms of the function
+            for t_ in [s_.value for s_ in exk.stores if s_.value is not None] + list(exk.returns):
+                vm_ = T.find(t_, lambda x: x.op == "callv" and x.args and x.args[0].op in ("call", "mcall") and x.args[0].name == "vmap")
+                if vm_ is not None:
+                    kt_ = next((a_ for a_ in vm_.args[0].args if a_.op != "free" or a_.name not in ("jax",)), None)
+                    break
+        if kt_ is not None and sp_ is not None:
             for nm_ in sorted(idxm.constants_compared_with(fi.node, sp_), key=str):
                 v_ = idxm.specialise(kt_, sp_, nm_)
                 while v_.op == "phi" and len([a_ for a_ in v_.args if a_.op not in ("undef", "carried")]) == 1:
